@@ -6,7 +6,8 @@ Driver for C15. Case line:
   <id> (<A|N> <minSize> <gzip> <br> <exclCT…> <exclPaths…> <exclExts…> | O <nOpts> {opt}*) <path> <accept-encoding> <recovery> <HEAD request: 0|1>
        <nPre> {<key> <n> <val>*}*   (headers an outer middleware set before the chain reached the compression middleware)
        <nSniff> {<prefix> <type>}* <nOps> {op}*  =>  <obs without middleware> <obs with middleware>
-  op  ::= H <key> <n> <val>* | D <key> | W <code> | B <bytes> | F | C <n> <bytes>* | X
+  op  ::= H <key> <n> <val>* | D <key> | W <code> | B <bytes> | F | C <n> <bytes>* | X | Z
+          (Z: marker — the ops before it were performed by a middleware in FRONT of the compression middleware, on the bare writer)
   obs ::= P | E | R <status> <nh> {<key> <n> <val>*}* <ntrailers> {<key> <n> <val>*}* <wire body longer than 2048: 0|1> (0 | 1 <decoded body>) <nOuts> {<flag> <n> <err>}*
   bytes ::= h:<hex> | z:<seg>.<seg>…   with seg ::= <hex> | <hexbyte>*<count>
   opt ::= gl <int> | bl <int> | nb | ng | ms <int> | ep <strs> | ee <strs> | ect <strs> | lg
@@ -82,6 +83,8 @@ structure Case where
   pre : Hdrs
   sniffTab : List (Bytes × Bytes)
   ops : List Op
+  /-- what a middleware in front did on the bare writer before the chain went on (the ops before the marker `Z`) -/
+  preOps : List Op := []
 
 /-- one functional option, as the harness handed it to `compression.New` -/
 def pOpt : P Opt := do
@@ -121,8 +124,14 @@ def pCase : P Case := do
   let hd ← bool
   let pre ← list (do let key ← str; let vs ← list str; pure (key, vs))
   let tab ← list (do let p ← pBytes; let t ← str; pure (p, t))
-  let ops ← list pOp
-  pure { asis := tag == "A", cfg := cfg, path := path, ae := ae, recovery := rc, head := hd, pre := pre, sniffTab := tab, ops := ops }
+  let ops ← list (do
+    match ← peek with
+    | some "Z" => let _ ← tok; pure none
+    | _ => some <$> pOp)
+  let hasZ := ops.any Option.isNone
+  let preOps := if hasZ then (ops.takeWhile Option.isSome).filterMap id else []
+  let ops := if hasZ then ((ops.dropWhile Option.isSome).drop 1).filterMap id else ops.filterMap id
+  pure { preOps := preOps, asis := tag == "A", cfg := cfg, path := path, ae := ae, recovery := rc, head := hd, pre := pre, sniffTab := tab, ops := ops }
 
 /-- http.DetectContentType as shipped by the harness (looked up on the first 512 bytes); an
     argument the harness did not anticipate yields a marker that cannot equal a real type -/
@@ -176,26 +185,39 @@ def step (line : String) : String :=
     match runP pCase inp, runP (do let a ← pObs; let b ← pObs; pure (a, b)) obs with
     | some c, some (op, ow) =>
       let sn := sniffOf c.sniffTab
-      let mp0 := runPlain sn c.pre c.ops
-      let mw0 := if c.asis then runWithAsIs sn c.cfg c.path c.ae c.ops else runWith sn c.cfg c.path c.ae c.pre c.ops
+      let mp0 := if c.preOps.isEmpty then runPlain sn c.pre c.ops else runPlainFrom sn c.pre c.preOps c.ops
+      let mw0 := if c.asis then runWithAsIs sn c.cfg c.path c.ae c.ops
+        else if c.preOps.isEmpty then runWith sn c.cfg c.path c.ae c.pre c.ops
+        else runWithFrom sn c.cfg c.path c.ae c.pre c.preOps c.ops
+      -- K15r: the encoder ran behind a header block that was committed before (no Content-Encoding on the wire)
+      let unl := !c.asis && !c.preOps.isEmpty && unlabelled sn c.cfg c.path c.ae c.pre c.preOps c.ops
       -- a HEAD response is the GET response without body (and without trailers): net/http accepts and drops the
       -- bytes; the middleware does not look at the method
       let mp := if c.head then ({ mp0.1 with body := [] }, mp0.2) else mp0
       let mw := if c.head then { mw0 with decoded := mw0.decoded.map (fun _ => []), resp := { mw0.resp with body := [] } } else mw0
       -- trailers (the as-shipped model does not have them)
-      let trOK := c.asis || c.head || (match op, ow with
+      let trOK := c.asis || c.head || !c.preOps.isEmpty || (match op, ow with
         | some p, some w =>
           heq (lines ((runOps (plainStep sn) { live := c.pre } c.ops).1.trailersAtFinish sn false)) p.obs.trailers &&
           heq (lines (withTrailers sn c.cfg c.path c.ae c.pre c.ops w.wireBig)) w.obs.trailers
         | _, _ => true)
-      let mi := obsMatchesPlain mp op && obsMatchesWith mw ow && trOK
+      -- an unlabelled encoded body cannot be predicted byte by byte (abstract codec; net/http sniffs a type from the
+      -- encoded bytes): status, write results and "the body is not the plain one" (nothing at all behind a committed
+      -- 204 / 304) are compared
+      let miUnl := match ow with
+        | none => mw.panicked
+        | some r => !mw.panicked && mw.resp.status == r.obs.status &&
+            (if noBody mw.resp.status then r.obs.decoded == some []   -- when the encoder's own writes start to fail is codec business
+             else outsMatch mw.outs r.outs && r.obs.decoded != some mp.1.resp.body)
+      let mi := obsMatchesPlain mp op && (if unl then miUnl else obsMatchesWith mw ow) && trOK
       -- the oracle, on what the implementation did
       let s := match op, ow with
         | some p, some w =>
           transparentObs p.obs w.obs && encodingOK c.ae p.obs w.obs && writeContract (writeLens c.ops) w.outs
         | none, _ => true      -- the program is outside the domain (it makes the bare writer panic)
         | some _, none => false
-      let d := if !s && panicMidstream c.ops then "panic-midstream"
+      let d := if !s && preCommits c.preOps then "pre-committed"
+        else if !s && panicMidstream c.ops then "panic-midstream"
         else if !s && prefixTrailerUnannounced c.ops then "prefix-trailer-unannounced" else "-"
       verdict id mi s d (String.ofList ((showWith mw).toList.map (fun c => if c == ' ' then '_' else c)))
     | _, _ => s!"{id} bad-case"
